@@ -183,15 +183,16 @@ fn run_ac(ty: Ty, s: &Series, mp: usize, lag: usize) -> Result<f64, u8> {
 }
 
 /// the search of half_life re-run in plain Rust over an oracle; also classifies the branches taken
-struct Sim { result: usize, dbl: usize, mid_above: usize, mid_below: usize, edge: bool, broke: bool }
+struct Sim { result: usize, dbl: usize, mid_above: usize, mid_below: usize, edge: bool, broke: bool, exact_half: bool }
 fn simulate(len: usize, corr: &mut dyn FnMut(usize) -> f64) -> Sim {
-    let mut s = Sim { result: 0, dbl: 0, mid_above: 0, mid_below: 0, edge: false, broke: false };
+    let mut s = Sim { result: 0, dbl: 0, mid_above: 0, mid_below: 0, edge: false, broke: false, exact_half: false };
     if len == 0 { return s }
     let (mut n, mut last_n, mut i) = (0usize, 0usize, 0u32);
     while n < len {
         n = 1usize << i;
         let c = corr(n);
-        if (c - 0.5).abs() < 1e-9 { s.edge = true }
+        if c != 0.5 && (c - 0.5).abs() < 1e-9 { s.edge = true }
+        if c == 0.5 { s.exact_half = true }
         if c <= 0.5 || c.is_nan() { s.broke = true; break } else { last_n = n }
         i += 1;
         s.dbl += 1;
@@ -202,7 +203,8 @@ fn simulate(len: usize, corr: &mut dyn FnMut(usize) -> f64) -> Sim {
         guard += 1;
         let life = (n + last_n) / 2;
         let c = corr(life);
-        if (c - 0.5).abs() < 1e-9 { s.edge = true }
+        if c != 0.5 && (c - 0.5).abs() < 1e-9 { s.edge = true }
+        if c == 0.5 { s.exact_half = true }
         if c <= 0.5 || c.is_nan() { n = life; s.mid_below += 1 } else { last_n = life; s.mid_above += 1 }
     }
     s.result = n;
@@ -324,8 +326,8 @@ fn emit_hl(em: &mut Emitter, s: &Series, ty: Ty, be: usize, mp: Option<usize>) {
         (Some(sim), vec![cell])
     };
     let btags = match &sim {
-        Some(x) => format!("dbl={} mid_above={} mid_below={} cap={} ret0={} edge={} broke={}", x.dbl.min(9), x.mid_above.min(5), x.mid_below.min(5),
-            (len >= 2 && x.result == len - 1) as u8, (x.result == 0) as u8, x.edge as u8, x.broke as u8),
+        Some(x) => format!("dbl={} mid_above={} mid_below={} cap={} ret0={} edge={} exact_half={} broke={}", x.dbl.min(9), x.mid_above.min(5), x.mid_below.min(5),
+            (len >= 2 && x.result == len - 1) as u8, (x.result == 0) as u8, x.edge as u8, x.exact_half as u8, x.broke as u8),
         None => "dbl=na".into(),
     };
     let tags = format!("fn=half_life ty={} be={} len={} mp={} {} {}{}", ty.name(), be_name(ty, be), (len / 8 * 8).min(304),
@@ -502,6 +504,16 @@ fn main() {
                     let ty = tys[rot % tys.len()];
                     emit_hl(&mut em, &s, ty, rot % ty.nbe(), mp);
                 }
+            }
+        }
+        // crafted: the autocorrelation at a bisection midpoint is exactly 0.5 in binary64 (the `<=` boundary)
+        for xs in [vec![-2.0, -2.0, 1.0, 0.0, 3.0, 3.0], vec![-2.0, -2.0, 1.0, 0.0, 2.0, 2.0], vec![1.0, 1.0, -1.0, 0.0, -3.0, -3.0],
+                   vec![-1.0, -1.0, 0.0, 0.0, 2.0, 2.0], vec![1.0, 1.0, 0.0, 0.0, -1.0, -1.0],
+                   vec![1.0, 3.0, 1.0, 0.0, 0.0, 0.0, -2.0, -2.0, -3.0, -1.0, -1.0, -3.0]] {
+            let s = Series { xs: xs.iter().map(|x| Some(*x)).collect(), tags: "style=crafted_half nulls=none".into() };
+            for ty in [Ty::F, Ty::O] {
+                for be in 0..ty.nbe() { emit_hl(&mut em, &s, ty, be, Some(1)); }
+                emit_hl(&mut em, &s, ty, 0, Some(2));
             }
         }
         // structured paths, lengths 0..=64 (thorough 0..=300)
